@@ -48,6 +48,12 @@ def agrees(i, m):
 def describe(case, i, m):
     """(text naming the clause of the property the disagreement is about, index of the rule, concrete?)"""
     i = strip(i)
+    if isinstance(i, dict) and "panic" in i:
+        where = [l.strip() for l in str(i.get("stack", "")).splitlines() if "/repo/internal/" in l.replace(vlib.REPO, "/repo")
+                 and "zzverif" not in l][:1]
+        return (f"heimdall panics ({i['panic']}{' at ' + where[0] if where else ''}) while the rules of the case are "
+                "loaded / their pipelines executed: a rule that makes a mechanism crash has to be rejected when its rule "
+                "set is loaded", None, True)
     if not isinstance(i, dict) or "factory" not in i:
         return "implementation side failed on the case: " + json.dumps(i)[:300], None, False
     if not isinstance(m, dict) or "spec" not in m:
@@ -70,12 +76,16 @@ def describe(case, i, m):
             return nth + "a well-formed rule is rejected when its rule set is loaded", k, True
         for p, (x, y) in enumerate(zip(a.get("probes", []), b.get("probes", []))):
             if x != y:
-                fields = [f for f in ("rule", "calls", "fin", "ret", "perr", "upstream") if x.get(f) != y.get(f)]
+                fields = [f for f in ("rule", "calls", "fin", "hdr", "ret", "perr", "upstream") if x.get(f) != y.get(f)]
                 if "rule" in fields and p == 4:
                     return (nth + f"backtracking setting is not the rule's own / the default rule's / off: "
                                   f"{PROBES[p]} is answered by '{x.get('rule')}', the property demands "
                                   f"'{y.get('rule')}'", k, True)
-                return (nth + f"the executed pipeline is not the stage-wise inherited one: probe '{PROBES[p]}' "
+                own = ""
+                if any((s.get("cfg") or 0) >= gen_factory.TYPED for lst in ("execute", "on_error")
+                       for s in (case["rules"][k].get(lst) or [])):
+                    own = " (the rule carries a rule-level config of its own: its mechanisms have to show exactly that)"
+                return (nth + f"the executed pipeline is not the stage-wise inherited one{own}: probe '{PROBES[p]}' "
                               f"differs in {fields}: executed {json.dumps({f: x.get(f) for f in fields})}, the "
                               f"property demands {json.dumps({f: y.get(f) for f in fields})}", k, True)
     if len(i.get("loads", [])) != len(s.get("loads", [])):
@@ -121,17 +131,17 @@ def candidates(cur):
                 oe = lst == "on_error"
                 if s.get("cond", "absent") != "absent":
                     c = copy.deepcopy(cur)
-                    get(c)[lst][n] = gen_factory.step(s["keys"], "absent", s.get("cfg"), oe)
+                    get(c)[lst][n] = gen_factory.restep(s, cond="absent", on_error=oe)
                     cands.append(c)
                 if s.get("cfg") is not None:
                     c = copy.deepcopy(cur)
-                    get(c)[lst][n] = gen_factory.step(s["keys"], s.get("cond", "absent"), None, oe)
+                    get(c)[lst][n] = gen_factory.restep(s, drop_cfg=True, on_error=oe)
                     cands.append(c)
                 if len(s["keys"]) > 1:
                     for key in s["keys"]:
                         c = copy.deepcopy(cur)
                         keys = {kk: vv for kk, vv in s["keys"].items() if kk != key}
-                        get(c)[lst][n] = gen_factory.step(keys, s.get("cond", "absent"), s.get("cfg"), oe)
+                        get(c)[lst][n] = gen_factory.restep(s, keys=keys, on_error=oe)
                         cands.append(c)
         for lst in ("execute", "on_error"):
             if lst in o and not o[lst] and lst == "on_error" and o[lst] is None:
@@ -171,7 +181,7 @@ def shrink(exe, case, fails, budget=160):
                 cur = c
                 changed = True
                 break
-    return cur
+    return gen_factory.compact(cur)
 
 
 def fails_alone(exe):
@@ -254,6 +264,10 @@ def run(R):
     pool = gen_factory.gen_defaults(R.rng, 60 if quick else 500)
     n = 1800 if quick else 24000
     cases = corpus + [gen_factory.gen_case(R.rng, pool) for _ in range(n)]
+    # look-alike overrides: histories in which one factory sees, for the same mechanism, values that differ in type
+    # or structure but print alike (some of them refused by the mechanism), in any order
+    n_look = 260 if quick else 4000
+    cases += [gen_factory.gen_lookalike_case(R.rng) for _ in range(n_look)]
     n_random = len(cases) - len(corpus)
     grids = gen_factory.small_scope(3 if quick else 5)
     cases += grids
@@ -275,6 +289,7 @@ def run(R):
     shared_refs = 0
     nontriv = set()
     multi_key = disordered = overrides = probes_run = rules_total = 0
+    typed = typed_refused = typed_histories = 0
     samples, sampled = [], set()
     for k, (c, i, m) in enumerate(zip(cases, impl, model)):
         if not agrees(i, m):
@@ -296,6 +311,8 @@ def run(R):
             reasons["config:" + st["config_reason"]] += 1
             continue
         nt = False
+        if c.get("ovr") and len(c["rules"]) > 1:
+            typed_histories += 1
         for n_rule, (r, rs, load) in enumerate(zip(c["rules"], st["rules"], res["loads"])):
             rules_total += 1
             v = load["load"]
@@ -314,6 +331,8 @@ def run(R):
             multi_key += 1 if rs["multi_key"] else 0
             disordered += 0 if rs["ordered"] else 1
             overrides += rs["overrides"]
+            typed += rs.get("typed", 0)
+            typed_refused += rs.get("typed_refused", 0)
             if v == "accepted":
                 probes_run += 6
                 for s in rs["own"]:
@@ -338,7 +357,9 @@ def run(R):
                 "kubernetes resource through the provider's conversion) + default rule (absent / partial / complete "
                 "/ malformed; lists spelled absent / null / [] / steps) + a history of 1..12 rule definitions, all "
                 "loaded by ONE real rule factory (configuration loader, mechanism catalogue with ids shared between "
-                "kinds, NewRuleFactory, rule set processor, repository), six probe requests per accepted rule; "
+                "kinds, NewRuleFactory, rule set processor, repository; the mechanism factory is shared by all cases "
+                "with the same configuration), rule-level overrides incl. look-alike values of different type, six "
+                "probe requests per accepted rule; "
                 "non-trivial = the configuration loads and some rule of the history is accepted with at least one "
                 "own and one inherited stage, or is rejected and has at least one step; distinct by hash of the "
                 "case without the catalogue",
@@ -354,6 +375,9 @@ def run(R):
         "accepted_backtracking_combinations": dict(bt_combo),
         "rules_with_multi_key_steps": multi_key, "rules_with_disordered_execute": disordered,
         "override_payloads": overrides, "probe_requests_executed": probes_run,
+        "lookalike_random_cases": n_look,
+        "typed_override_values": typed, "typed_override_values_refused_by_their_mechanism": typed_refused,
+        "histories_with_typed_overrides": typed_histories,
         "samples": samples or [slim(cases[0])],
         "exhaustive": False,
         "small_scope": "every default rule of {absent, authenticator + each subset of {authorizer, finalizer, error "
@@ -363,13 +387,23 @@ def run(R):
                        "every kind x condition class x override tag; every pair of reference keys in one step; every "
                        "spelling (absent/null/[]/steps) of execute x on_error x 8 default rules x load path x mode, "
                        "forwards and backwards; every ordered pair of references to shared / kind-only ids with the "
-                       "first one used by the default rule, an earlier rule or an earlier step" % (3 if quick else 5),
+                       "first one used by the default rule, an earlier rule or an earlier step; look-alike overrides: "
+                       "every mechanism type x every family of values that print alike (string / number / bool / nil, "
+                       "string with k:v pairs / map, string '[a b]' / list, nested / flattened, spellings of one "
+                       "duration) x every ordered pair of members as a history of two rules of one factory, and "
+                       "the whole family forwards and backwards" % (3 if quick else 5),
     })
     R.assumptions += [
         "the catalogue, the override payloads and the condition literals used by the generator stand for all "
-        "mechanisms, overrides and conditions: the model treats the catalogue abstractly (known ids per kind, "
+        "mechanisms, overrides and conditions: the theorems treat the catalogue abstractly (known ids per kind, "
         "accepted override tags), the correspondence run exercises heimdall's generic/anonymous authenticators, "
-        "remote authorizer, generic contextualizer, header finalizer, redirect/default error handlers",
+        "remote authorizer, generic contextualizer, header finalizer, redirect/default/www_authenticate error handlers",
+        "typed overrides (tags >= 100 name values of the case's `ovr` table): whether a mechanism accepts a value and "
+        "what the variant then shows is computed by the model from the value (Model/FactoryOverride.lean: strict "
+        "decoding of subject / realm / allow_fallback_on_error / continue_pipeline_on_error / cache_ttl / values / "
+        "headers, unknown keys refused) and validated by the correspondence run; other keys the real mechanisms accept "
+        "on the rule level (payload, expressions, forward_* lists) are not in that stream; `null` as a template entry "
+        "(accepted at load, nil dereference at execution: fixes/C14-1) is not generated",
         "execution semantics of the probe requests (Model/FactoryProbe.lean: fallback between authenticators, "
         "conditions, first applicable error handler, backtracking to a less specific rule) are validated by the "
         "correspondence run, not proved; they belong to properties C01/C02/C04",
